@@ -189,6 +189,14 @@ def correction_events(darsia, rng, work, reps):
         probe = rs.rand(H, W, 3)
         cands = []
         cands.append(("TypeCorrection", lambda: darsia.TypeCorrection(rng.choice([np.float32, np.float64, np.uint8])), (rs.rand(H, W, 3)).astype(np.float64)))
+        # every spelling of a target type (builtin float / int / bool are not the numpy types of the same width: float keeps a
+        # float32 image, np.float64 widens it) on every pixel type
+        TYPES = [float, np.float32, np.float64, np.uint8, np.uint16, bool]
+        tt = TYPES[(rep * 2) % len(TYPES)], TYPES[(rep * 2 + 1) % len(TYPES)]
+        for t_ in tt:
+            for in_dt in (np.float32, np.uint8, np.float64):
+                arr_in = (rs.rand(H, W, 3) * (255 if in_dt == np.uint8 else 1)).astype(in_dt)
+                cands.append(("TypeCorrection", (lambda t_=t_: darsia.TypeCorrection(t_)), arr_in))
         cands.append(("DriftCorrection", lambda: darsia.DriftCorrection(rs.rand(H, W, 3), config={"active": False, "padding": rng.choice([0.1, 0.25]), "roi": (slice(0, 2), slice(1, 3))}), probe))
         cands.append(("DriftCorrection", lambda: darsia.DriftCorrection(rs.rand(H, W, 3), config={"active": False, "padding": 0.0, "roi": (slice(1, 3), slice(0, 2))}), probe))
         cands.append(("DriftCorrection", lambda: darsia.DriftCorrection(rs.rand(H, W, 3), config={"active": False, "padding": rng.choice([0.1, 0.3]), "roi": np.array([[1, 1], [H - 2, W - 2]])}), probe))
